@@ -1143,4 +1143,53 @@ theorem expectedCalls_congr {a b : List Key} (ch : List Key) (hab : ∀ k, k ∈
   rw [this]
 
 
+/-! ### whole programs -/
+
+/-- a program: operations one after the other (the log is not reset); stops at the first rejected key -/
+def runOps (w : IWorld) : List Op → Bool × IWorld
+  | [] => (true, w)
+  | op :: rest =>
+    match runOp w op with
+    | (false, w1) => (false, w1)
+    | (true, w1) => runOps w1 rest
+
+/-- the specification's expected number of calls over a whole program -/
+def expectedProgram (deps : List Key) : List (Key × Int) → List Op → Nat
+  | _, [] => 0
+  | vals, op :: rest =>
+    expectedCalls deps (changedKeys vals (opAssignments op)).1 +
+      expectedProgram deps (changedKeys vals (opAssignments op)).2 rest
+
+/-- **every operation of every program**: for a table method whose dependencies are of one kind, the
+log of any program of assignments, `update`s and batches gains, operation by operation, exactly the
+calls the specification expects, and the instance is idle again after each of them -/
+theorem program_calls (table : List Entry) (e : Entry) (hn : (table.map (·.name)).Nodup) (he : e ∈ table)
+    (hcls : ∀ d ∈ e.deps, d.cls = e.origin) (hkind : ∀ d1 ∈ e.deps, ∀ d2 ∈ e.deps, d1.what = d2.what) :
+    ∀ (ops : List Op) (w w' : IWorld), InstanceWorld table w → runOps w ops = (true, w') →
+    w'.log.count e.name = w.log.count e.name + expectedProgram (e.deps.map keyOf) w.vals ops ∧
+      InstanceWorld table w' := by
+  intro ops
+  induction ops with
+  | nil =>
+    intro w w' hW hr
+    simp only [runOps, Prod.mk.injEq, true_and] at hr
+    subst hr
+    exact ⟨by simp [expectedProgram], hW⟩
+  | cons op rest ih =>
+    intro w w' hW hr
+    simp only [runOps] at hr
+    split at hr
+    · simp at hr
+    · rename_i w1 h1
+      obtain ⟨c1, c2, c3⟩ := instance_calls table w w1 e op hW hn he hcls h1 (by
+        intro k1 _ k2 _ h1' h2'
+        obtain ⟨d1, hd1, rfl⟩ := List.mem_map.1 h1'
+        obtain ⟨d2, hd2, rfl⟩ := List.mem_map.1 h2'
+        exact hkind d1 hd1 d2 hd2)
+      obtain ⟨i1, i2⟩ := ih w1 w' c2 hr
+      refine ⟨?_, i2⟩
+      rw [i1, c1, c3]
+      simp only [expectedProgram]
+      omega
+
 end ParamVerif.Depends
